@@ -380,7 +380,8 @@ def geo2grid(lat, lon, zone=0, ellipsoid=grs80, prj=utm):
         north = prj.cmscale * y + falsenorth
 
     # Point Scale Factor and Grid Convergence
-    psf, grid_conv = psfandgridconv(xi1, eta1, degrees(lat), lon, cm, conf_lat)
+    psf, grid_conv = psfandgridconv(xi1, eta1, degrees(lat), lon, cm, conf_lat,
+                                    ellipsoid, prj)
 
     return (hemisphere, zone,
             round(float(east), 4),
@@ -493,7 +494,8 @@ def grid2geo(zone, east, north, hemisphere='south', ellipsoid=grs80, prj=utm):
     long = cm + long_diff
 
     # Point Scale Factor and Grid Convergence
-    psf, grid_conv = psfandgridconv(xi1, eta1, lat, long, cm, conf_lat)
+    psf, grid_conv = psfandgridconv(xi1, eta1, lat, long, cm, conf_lat,
+                                    ellipsoid, prj)
 
     return (hemisign * round(lat, 11),
             round(long, 11), round(psf, 8),
